@@ -5,6 +5,8 @@ import MobiusModel.Props.C12
 import MobiusModel.Generated.Concurrency
 import MobiusModel.Generated.Handlers
 import MobiusModel.Generated.Outbox
+import MobiusModel.Generated.Kick
+import MobiusModel.KickTimer
 /-!
   C14 — Each client receives whole, well-formed, correlated transactions.
 
@@ -214,6 +216,65 @@ theorem abandoned_write_breaks_framing :
   have e : parseStream (witnessA.encode.take 10 ++ witnessB.encode) = .err := by decide +kernel
   rw [e] at h
   cases h
+
+-- ------------------------------------------------------------------ (d) replies are not dropped: the addressee stays registered
+
+/-- `sendTransaction` looks the addressee up by id and silently drops the transaction when the table has nobody under
+    that id.  For EVERY history of logins, own disconnects and delayed second disconnects (`timerFires`: the goroutine
+    a kick / account deletion leaves behind) from the empty server — any number of users, also across the wrap of the
+    16-bit id counter — a connection that has logged in and whose own `Disconnect` has not run is in the table under
+    its own id: the lookup finds THIS connection, so its replies are neither dropped nor written to somebody else. -/
+theorem addressee_registered_until_own_disconnect (es : List Kick.Ev) (conn i : Nat)
+    (hb : (conn, i) ∈ (Kick.run Kick.St.init es).born) (hg : conn ∉ (Kick.run Kick.St.init es).gone) :
+    ∃ d, (Kick.run Kick.St.init es).reg.get i = some d ∧ d.conn = conn :=
+  Kick.registered_until_own_disconnect es conn i hb hg
+
+/-- A disconnect — the connection's own or the delayed one — takes exactly the connection it is aimed at out of the
+    table (or nobody, the second time); every other connection stays. -/
+theorem disconnect_removes_only_its_target (es : List Kick.Ev) (conn : Nat) (e : Kick.Ev)
+    (he : e = .leave conn ∨ e = .timerFires conn) :
+    (∀ d, (Kick.step (Kick.run Kick.St.init es) e).2.removed = some d → d.conn = conn) ∧
+    (∀ d ∈ (Kick.run Kick.St.init es).reg.clients, d.conn ≠ conn → d ∈ (Kick.step (Kick.run Kick.St.init es) e).1.reg.clients) :=
+  (Kick.step_spec (Kick.Good.init.run es) e).2 conn he
+
+/-- The negative witness (the code before fix d658b12, every `Disconnect` deleting by id): U logs in, 65 534
+    connections come and go, U is kicked and hangs up, a newcomer is given U's id, the timer fires — and the
+    newcomer, another connection object, is removed: every reply addressed to it is dropped from then on. -/
+theorem stale_disconnect_before_fix_removes_newcomer :
+    ∃ (r : Registry) (u n : Client),
+      Registry.init.add Kick.blank = some (r, u) ∧ u.id = 1 ∧
+      (Kick.spinN 65534 r).delete u.id = ⟨65535, 65535, []⟩ ∧
+      Registry.add ⟨65535, 65535, []⟩ Kick.blank = some (⟨65537, 65536, [n]⟩, n) ∧
+      n.id = u.id ∧ n.conn ≠ u.conn ∧
+      (Kick.discById ⟨65537, 65536, [n]⟩ u.id).2.removed = some n ∧
+      (Kick.discById ⟨65537, 65536, [n]⟩ u.id).1.clients = [] :=
+  Kick.stale_timer_removes_newcomer_after_wrap
+
+/-- … while before the wrap even that code was safe: as long as the counter has made fewer than 65 536 steps since a
+    connection was registered, nobody else holds its id. -/
+theorem before_fix_safe_inside_the_window (es : List Kick.Ev) (b : Kick.Birth) (hb : b ∈ (Kick.runById Kick.StById.init es).born)
+    (hwin : (Kick.runById Kick.StById.init es).ticks < b.t + 65536) :
+    Kick.NoReissue (Kick.runById Kick.StById.init es).reg b.conn b.id :=
+  Kick.no_reissue_before_wrap (Kick.GoodById.init.run es) b hb hwin
+
+/-- `ClientConn.Disconnect` runs its whole body (with the by-id `ClientMgr.Delete`) through a `sync.Once` of the
+    connection — the shape `Kick.step` models; regenerated from source on every run. -/
+theorem generated_disconnect_once : Generated.disconnectShape = "once-guarded" := by decide
+
+/-- No method of `hotline.Stats` that takes `s.mu` calls a method of `Stats` (a nested `RLock` under a `RLock`
+    deadlocks as soon as a login / logout waits for the write lock; every later connection then hangs in
+    `Stats.Increment` right after its login reply and none of its requests is answered). -/
+theorem generated_stats_no_nested_locking :
+    ∀ m ∈ Generated.statsLocking, m.2.1 ≠ "none" → m.2.2 = [] := by decide
+
+/-- … and the five methods the connection handler and the stats reader use are all there (the fact is not vacuous). -/
+theorem generated_stats_methods :
+    Generated.statsLocking.map (·.1) = ["Decrement", "Get", "Increment", "Set", "Values"] := by decide
+
+-- a kicked user (connection 0) hangs up, a newcomer logs in, the timer fires: the newcomer is still registered
+example : ((Kick.run Kick.St.init [.login Kick.blank, .login Kick.blank, .leave 0, .login Kick.blank, .timerFires 0]).reg.clients.map (·.conn)) = [1, 2] := by decide
+example : (2, 3) ∈ (Kick.run Kick.St.init [.login Kick.blank, .login Kick.blank, .leave 0, .login Kick.blank, .timerFires 0]).born ∧
+    2 ∉ (Kick.run Kick.St.init [.login Kick.blank, .login Kick.blank, .leave 0, .login Kick.blank, .timerFires 0]).gone := by decide
 
 -- ------------------------------------------------------------------ non-vacuity
 
